@@ -934,23 +934,23 @@ func c04Mem(p *Prog, res *Result) {
 			}
 			return true
 		})
-		var loop *ast.RangeStmt
+		var loop *elemLoop
 		fn.inspectBody(func(n ast.Node) bool {
-			if rs, ok := n.(*ast.RangeStmt); ok && fn.objOf(rs.X) == plans {
-				loop = rs
+			if el := elemLoopOf(fn, n); el != nil && fn.objOf(el.list) == plans {
+				loop = el
 			}
 			return true
 		})
 		okGuard, okCut := false, false
 		if loop != nil {
-			g, _ := guardedBy(fn, loop.X, func(f *FuncNode, is *ast.IfStmt) bool {
+			g, _ := guardedBy(fn, loop.list, func(f *FuncNode, is *ast.IfStmt) bool {
 				b, ok := unparen(is.Cond).(*ast.BinaryExpr)
 				return ok && b.Op == token.LSS && exprStr(b.X) == "len("+plans.Name()+")" && f.objOf(b.Y) == cnt
 			})
 			okGuard = g != nil
 			fn.inspectBody(func(n ast.Node) bool {
 				if as, ok := n.(*ast.AssignStmt); ok && len(as.Lhs) == 1 && len(as.Rhs) == 1 && fn.objOf(as.Lhs[0]) == plans {
-					if se, ok := unparen(as.Rhs[0]).(*ast.SliceExpr); ok && se.Low == nil && fn.objOf(se.High) == cnt && fn.objOf(se.X) == plans && as.Pos() < loop.Pos() {
+					if se, ok := unparen(as.Rhs[0]).(*ast.SliceExpr); ok && se.Low == nil && fn.objOf(se.High) == cnt && fn.objOf(se.X) == plans && as.Pos() < loop.stmt.Pos() {
 						okCut = true
 					}
 				}
@@ -1035,13 +1035,13 @@ func c04Rec(p *Prog, res *Result) {
 	var wl *ast.CompositeLit
 	var site litSite
 	fn.inspectBody(func(n ast.Node) bool {
-		if rs, ok := n.(*ast.RangeStmt); ok && rs.Value != nil {
+		if el := elemLoopOf(fn, n); el != nil && el.elem != nil {
 			// the literal in the plan loop, or in a constructor helper called there
-			for _, ls := range p.litsVia(fn, rs.Body, func(owner *FuncNode, cl *ast.CompositeLit) bool {
+			for _, ls := range p.litsVia(fn, el.body, func(owner *FuncNode, cl *ast.CompositeLit) bool {
 				t := owner.typeOf(cl)
 				return t != nil && strings.HasSuffix(t.String(), "types.WorkloadResource")
 			}) {
-				wl, plan, site = ls.lit, fn.objOf(rs.Value), ls
+				wl, plan, site = ls.lit, el.elem, ls
 			}
 		}
 		return true
